@@ -7,6 +7,7 @@
 From Coq Require Import List ZArith Bool Arith.
 Import ListNotations.
 From RV Require Import Gen.GenTermination Model.Retry Model.Machine Proofs.RetryP Proofs.MachineP Proofs.ResumeP.
+From RV Require Import Gen.GenFacts.
 Local Open Scope Z_scope.
 
 (** For a harness that is a function of (run, invocation number): any two histories of interrupted and
@@ -46,6 +47,13 @@ Theorem C08_idempotent :
     /\ s_completed (l_st (g_loc (session w ps (ginit loaded)) r)) = fst (loaded r).
 Proof. exact complete_run_not_started. Qed.
 Print Assumptions C08_idempotent.
+
+(** The data file is loaded before anything is executed, and the data files are closed in a finally
+    block of Executor.execute (read off the source on every run): what an interrupted session
+    recorded is flushed and is what the next session starts from. *)
+Theorem C08_load_before_execute : load_before_execute = true /\ close_in_finally = true.
+Proof. split; reflexivity. Qed.
+Print Assumptions C08_load_before_execute.
 
 (** Non-vacuity: 2 runs x 3 invocations, invocation 3 of run 1 always fails; cut after 2 and after 3 steps, then finished. *)
 Definition w08 : world :=
